@@ -229,11 +229,11 @@ def gen_threads(rng, tier, flag, n, maxlen):
 
 def streams(tier, rng):
     q = tier == "quick"
-    n_tally = 700 if q else 20000
+    n_tally = 700 if q else 15000
     n_rel = 300 if q else 8000
     n_bound = 300 if q else 6000
-    n_thr = 120 if q else 3000
-    n_thr_rel = 60 if q else 1500
+    n_thr = 120 if q else 2400
+    n_thr_rel = 60 if q else 1200
     corpus_t = load_corpus("tally")
     corpus_th = load_corpus("threads")
     tally_d = [c for c in corpus_t if c.startswith("D")] + gen_tally(rng, tier, "D", n_tally)
